@@ -82,6 +82,11 @@ func NewUCryptoSetupClient(
 
 	tlsConf = tlsConf.Clone()
 	tlsConf.MinVersion = tls.VersionTLS13
+	// [UQUIC] A ClientHelloSpec that ends in a pre_shared_key extension resumes sessions. Without a session to
+	// resume the extension is empty: browsers leave it out then, while uTLS refuses to build the ClientHello
+	// unless told to do the same - and that refusal leaves UQUICConn.Start (and with it Dial, the cancellation
+	// of its context and Transport.Close) blocked for ever.
+	tlsConf.OmitEmptyPsk = true
 	cs.tlsConf = tlsConf
 	cs.allow0RTT = enable0RTT
 
